@@ -231,6 +231,29 @@ impl Handler {
         #[cfg(feature = "verif")]
         crate::verif::sync("handler.subscribed", Some(&self.verif_frame()), 0);
 
+        // A handler resuming from tail is never handed what was stored before it subscribed. A
+        // `.register` / `.unregister` of its name that slipped in between its own registration
+        // and the subscription has already replaced or stopped it.
+        if options.tail {
+            let superseded_by = store
+                .read_sync(Some(&self.id), None, Some(self.context_id))
+                .find(|frame| {
+                    frame.topic == format!("{}.register", &self.topic)
+                        || frame.topic == format!("{}.unregister", &self.topic)
+                });
+            if let Some(frame) = superseded_by {
+                let _ = store.append(
+                    Frame::builder(format!("{}.unregistered", &self.topic), self.context_id)
+                        .meta(serde_json::json!({
+                            "handler_id": self.id.to_string(),
+                            "frame_id": frame.id.to_string(),
+                        }))
+                        .build(),
+                );
+                return Ok(());
+            }
+        }
+
         {
             let store = store.clone();
             let mut handler = self.clone();
